@@ -81,10 +81,10 @@ func main() {
 	run.Assume("F scenarios run the real key exchange against reference server R3 first (owned random stream), one delay bound lower because each execution repeats the exchange",
 		"a stall is decided structurally: a thread parked forever on a channel operation at quiescence")
 	D, E := 2, 1
-	budget := 100 * time.Second
+	budget := 5 * time.Minute
 	if run.Thorough() {
 		D, E = 3, 1
-		budget = 15 * time.Minute
+		budget = 45 * time.Minute
 	}
 	run.Set("delay_bound", D)
 	run.Set("server_deviation_bound", E)
